@@ -767,6 +767,12 @@ def initState (s : Str) : State :=
 /-- `Lexer(s).parse()` -/
 def lex (cfg : Cfg) (s : Str) : Result := lexLoop cfg s (s.length + 2) (initState s) 0
 
+/-- `Lexer(s, preprocessor=ps).parse()`: `parse` first rewrites `self.text` with every preprocessor in turn, *then*
+    sets `textlength` to the length of what it is going to lex (`Generated.LexerCfg.textlengthIsLexedLength`,
+    obligation `textlength_is_lexed_length` in Props/C01) and lexes that text: the source the tokens account for is
+    the preprocessed text. -/
+def parseWith (cfg : Cfg) (ps : List (Str → Str)) (s : Str) : Result := lex cfg (ps.foldl (fun t p => p t) s)
+
 /-- the state the lexer is in when its cursor stands at `p` with the given stacks (for per-matcher probes) -/
 def stateAt (s : Str) (p : Nat) (tags : List Str) (ctls : List Str) : State :=
   { pos := p, lineno := lineOf s p, matchedLineno := 1, matchedCharpos := 0,
